@@ -69,6 +69,11 @@ func roundTripPrograms(tier string, visit func(src, from string)) {
 			gen.Call("std.tolower", gen.Ident("req.http.H")),
 			gen.Call("std.tolower", gen.Group(gen.Ident("req.http.I"))),
 			gen.IfExpr(gen.Group(gen.Ident("req.http.J")), gen.Str("y"), gen.Str("n")),
+			// if() with two and three composite operands
+			gen.IfExpr(gen.Ident("req.http.K"), gen.Call("std.toupper", gen.Ident("req.http.L")), gen.Call("std.tolower", gen.Ident("req.http.M"))),
+			gen.IfExpr(gen.Infix(gen.Ident("req.http.N"), "==", gen.Str("1")), gen.Call("std.toupper", gen.Ident("req.http.O")), gen.Str("no")),
+			gen.IfExpr(gen.Infix(gen.Ident("req.http.P"), "~", gen.Str("^x")), gen.Concat(gen.Str("a"), false, gen.Ident("req.http.Q")), gen.IfExpr(gen.Prefix("!", gen.Ident("req.http.R")), gen.Call("std.itoa", gen.Int(1)), gen.Concat(gen.Str("b"), true, gen.Str("c")))),
+			gen.Call("regsub", gen.Call("std.tolower", gen.Ident("req.http.S")), gen.Str("a"), gen.Call("std.toupper", gen.Ident("req.http.T"))),
 			gen.Str("s"),
 			gen.Int(1),
 		}
